@@ -8,22 +8,28 @@ Rule family R8 (bit algebra normal form) on Bits._compile / init / unpack / pack
      first/last membership tests look at the immediate neighbours;
  (b) byte boundary: a raise guarded by  sum % 8 != 0  precedes the compilation of the shared
      Int, whose width is sum // 8;
- (c) unpack stores (I & mask) >> shift with I read from the shared slot after the shared Int
-     was read (only the first member reads it, and returns its cursor);
- (d) pack stores T1 | T2 into the shared slot with T1 = (value << shift) & mask and
-     T2 = I & ~mask (confinement: no value, however large or negative, reaches a neighbour's
-     bits); the shared Int is packed only by the last member, after the merge;
+ (c) unpack stores the member's own bits of the shared word, brought down to bit 0 -- decided on
+     the bit-provenance normal form (bitprov.py) of the stored expression, with the masks as
+     _compile defines them, so (I & mask) >> shift and (I >> shift) & value_mask are the same;
+     I is read from the shared slot after the shared Int was read (only the first member reads
+     it, and returns its cursor);
+ (d) pack stores into the shared slot the word whose own bits are the low W bits of the value and
+     whose other bits are the old word's (confinement: no value, however large or negative,
+     reaches a neighbour's bits) -- again by normal form; the shared Int is packed only by the
+     last member, after the merge;
  (e) the shared Int is constructed with defaults (unsigned, no endianness) and compiled with a
      configuration that has no endianness key (big-endian whatever the class says);
  (f) init zeroes the shared slot at the first member.
 The arithmetic of Python ints is trusted.
 """
 import ast
+import copy
 import re
 
 from .. import Undecided
 from ..expr import canon, lin, or_terms, and_factors, call_name, unparse, negate, conj
 from ..model import stmt_text
+from .. import bitprov as bp
 
 EXPLANATION = __doc__
 LEVEL_RULE = 'one obligation per clause (a)-(f) instance on the paths / loop summary of the four Bits methods'
@@ -148,6 +154,31 @@ def find_run_walk(ctx, comp, paths, rule):
     return found[0]
 
 
+def bits_eval(bits):
+    """evaluator of shift / mask expressions of Bits methods: W = the member's bit_count, S = its
+    shift (the running sum of _compile), attributes as the loop of _compile defines them"""
+    table, F, PHI = bits['table'], bits['F'], bits['PHI']
+    word = C(GETI)
+    val = C(GETV)
+
+    def leaf(t, e):
+        if t == word:
+            return bp.Bits([('I', bp.L(0), bp.L(0), bp.INF)])
+        if t == val:
+            return bp.Bits([('V', bp.L(0), bp.L(0), bp.INF)])
+        if t == PHI:
+            return bp.Num(bp.S)
+        if t in ('self.bit_count', '%s.bit_count' % F):
+            return bp.Num(bp.W)
+        for pre in ('self.', F + '.'):
+            if t.startswith(pre) and t[len(pre):] in table:
+                return table[t[len(pre):]]
+        if isinstance(e, ast.Name) and e.id in bits.get('consts', {}):
+            return bits['consts'][e.id]
+        return None
+    return bp.Eval(leaf)
+
+
 def check_compile(ctx, ci):
     repo = ctx.repo
     comp = ci.methods.get('_compile')
@@ -179,12 +210,12 @@ def check_compile(ctx, ci):
     # ---- the walk over the run
     walk = find_run_walk(ctx, comp, paths, rule)
     if walk is None:
-        return
+        return None
     lp, F, n = walk['lp'], walk['F'], walk['lp'].sub['phi']
     cont = walk['cont']
     if len(cont) != 1:
         ctx.undecided(rule, comp, 'loop body', 'expected one continuing body path, found %d' % len(cont), lp.lineno, clause='a')
-        return
+        return None
     b = cont[0]
     # which carried variable is the running sum?  the one advanced by f.bit_count
     acc = None
@@ -195,7 +226,7 @@ def check_compile(ctx, ci):
     rule = 'R8-shift-mask'
     if acc is None:
         ctx.violation(rule, comp, 'loop body', 'no running sum is advanced by the member\'s bit_count', lp.lineno, clause='a')
-        return
+        return None
     PHI = '%s@phi%d' % (acc, n)
     sh = [e for e in b.effects if e.kind == 'store_attr' and canon(e.obj) == F and e.name == 'shift']
     mk = [e for e in b.effects if e.kind == 'store_attr' and canon(e.obj) == F and e.name == 'mask']
@@ -205,14 +236,41 @@ def check_compile(ctx, ci):
         ctx.holds(rule, comp, 'f.shift = running sum (before the increment)', 'LSB-first accumulation from the last member = MSB-first layout', sh[-1].lineno, clause='a')
     else:
         ctx.violation(rule, comp, 'f.shift = %s' % canon(sh[-1].value), 'the shift must be the running sum of the widths of the later members (assigned before the increment)', sh[-1].lineno, clause='a')
-    if not mk:
-        ctx.violation(rule, comp, 'loop body', 'the member\'s mask is never assigned', lp.lineno, clause='a')
-    else:
-        shift_text = canon(sh[-1].value) if sh else PHI
-        if is_mask_expr(mk[-1].value, '%s.bit_count' % F, shift_text):
-            ctx.holds(rule, comp, 'f.mask = ((1 << w) - 1) << shift', 'exactly the member\'s bits', mk[-1].lineno, clause='a')
-        else:
-            ctx.violation(rule, comp, 'f.mask = %s' % canon(mk[-1].value), 'expected ((1 << bit_count) - 1) << shift', mk[-1].lineno, clause='a')
+    # what the constructor leaves in the attributes (with the values of that moment: a mask derived
+    # there from another attribute does not follow a later redefinition), then what the walk assigns
+    table = {}
+    ctor = ci.methods.get('__init__')
+    if ctor is not None:
+        cps = [p for p in repo.walker().paths(ctor.node, cls=ci) if not p.raises()]
+        if len(cps) == 1:
+            stores = [e for e in cps[0].effects if e.kind == 'store_attr' and canon(e.obj) == 'self']
+            width_param = [canon(e.value) for e in stores if e.name == 'bit_count' and isinstance(e.value, ast.Name)]
+
+            class _P(ast.NodeTransformer):
+                def visit_Name(self, n):
+                    if n.id in width_param:
+                        return ast.Attribute(value=ast.Name(id='self', ctx=ast.Load()), attr='bit_count', ctx=ast.Load())
+                    return n
+            for e in stores:
+                if e.name != 'bit_count':
+                    table[e.name] = _P().visit(copy.deepcopy(e.value))
+    for e in b.effects:
+        if e.kind == 'store_attr' and canon(e.obj) == F:
+            table[e.name] = e.value
+    consts = {}
+    for st in repo.modules[ci.module]['tree'].body:
+        if isinstance(st, ast.Assign) and len(st.targets) == 1 and isinstance(st.targets[0], ast.Name):
+            consts[st.targets[0].id] = st.value
+    bits = {'table': table, 'F': F, 'PHI': PHI, 'consts': consts}
+    if mk:
+        try:
+            m = bits_eval(bits).ev(mk[-1].value)
+            if isinstance(m, bp.Ones) and m.ivs == bp.own_mask().ivs:
+                ctx.holds(rule, comp, 'f.mask = ((1 << w) - 1) << shift', 'exactly the member\'s bits', mk[-1].lineno, clause='a')
+            else:
+                ctx.violation(rule, comp, 'f.mask = %s' % canon(mk[-1].value), 'expected the ones of the member\'s own bits, ((1 << bit_count) - 1) << shift; this is %s' % (m.text() if hasattr(m, 'text') else type(m).__name__), mk[-1].lineno, clause='a')
+        except Undecided as ex:
+            ctx.undecided(rule, comp, 'f.mask = %s' % canon(mk[-1].value), str(ex), mk[-1].lineno, clause='a')
     # initial value 0
     init0 = lp.sub['entry'].get(acc)
     init0 = init0.value if isinstance(init0, ast.Constant) else (canon(init0) if init0 is not None else None)
@@ -278,14 +336,26 @@ def check_compile(ctx, ci):
             bad = [k.arg for k in c.keywords if k.arg in ('signed', 'endianness')] or (['positional'] if len(c.args) > 1 else [])
             if bad:
                 ctx.violation('R8-shared-int', comp, stmt_text(c), 'the shared Int must be unsigned and without its own endianness', c.lineno, clause='e')
+    return bits
 
 
-def check_unpack(ctx, ci):
+def _derive(ctx, ci):
+    """the shift / mask definitions of Bits._compile, for a caller that does not report on _compile"""
+    from ..report import Ctx
+    sub = Ctx(ctx.prop, ctx.repo, ctx.tier, ctx.seed)
+    sub.max_paths = getattr(ctx, 'max_paths', 4096)
+    try:
+        return check_compile(sub, ci)
+    except Undecided:
+        return None
+
+
+def check_unpack(ctx, ci, bits='derive'):
     repo = ctx.repo
+    bits = _derive(ctx, ci) if bits == 'derive' else bits
     fi = ci.methods.get('unpack')
     rule = 'R8-extract'
     w = repo.walker()
-    want = C('(%s & self.mask) >> self.shift' % GETI)
     for p in w.paths(fi.node, cls=ci):
         if p.raises():
             continue
@@ -296,10 +366,16 @@ def check_unpack(ctx, ci):
             ctx.violation(rule, fi, label, 'no value is stored', fi.node.lineno, clause='c')
             continue
         v = st_[-1].value
-        if canon(v) == want:
-            ctx.holds(rule, fi, '%s: store (I & mask) >> shift' % label, 'exactly the member\'s slice', st_[-1].lineno, clause='c')
-        else:
-            ctx.violation(rule, fi, '%s: store %s' % (label, canon(v)), 'expected (I & self.mask) >> self.shift with I read from the shared slot', st_[-1].lineno, clause='c')
+        try:
+            if bits is None:
+                raise Undecided('the shifts and masks of Bits._compile were not identified')
+            got = bits_eval(bits).ev(v)
+            if isinstance(got, bp.Bits) and got.key() == bp.field_slice().key():
+                ctx.holds(rule, fi, '%s: store (I & mask) >> shift' % label, 'bit provenance %s: exactly the member\'s slice' % got.text(), st_[-1].lineno, clause='c')
+            else:
+                ctx.violation(rule, fi, '%s: store %s' % (label, canon(v)), 'expected the member\'s own bits of the shared word at bit 0, (I & self.mask) >> self.shift; this is %s' % (got.text() if hasattr(got, 'text') else 'not a value made of bits of the shared word'), st_[-1].lineno, clause='c')
+        except Undecided as ex:
+            ctx.undecided(rule, fi, '%s: store %s' % (label, canon(v)), str(ex), st_[-1].lineno, clause='c')
         reads = [e for e in p.effects if e.kind == 'call' and isinstance(e.call.func, ast.Attribute) and e.call.func.attr == 'unpack' and canon(e.call.func.value) == 'self.I']
         r = p.ret()
         if 'self.iam_first' in gt:
@@ -327,12 +403,12 @@ def check_unpack(ctx, ci):
                 ctx.holds(rule, fi, '%s: cursor unchanged' % label, 'the run\'s bytes are consumed once', fi.node.lineno, clause='c')
 
 
-def check_pack(ctx, ci):
+def check_pack(ctx, ci, bits='derive'):
     repo = ctx.repo
+    bits = _derive(ctx, ci) if bits == 'derive' else bits
     fi = ci.methods.get('pack')
     rule = 'R8-confinement'
     w = repo.walker()
-    t1_want = C('(%s << self.shift) & self.mask' % GETV)
     for p in w.paths(fi.node, cls=ci):
         if p.raises():
             continue
@@ -344,21 +420,26 @@ def check_pack(ctx, ci):
             ctx.violation(rule, fi, label, 'expected exactly one merge into the shared slot, found %d' % len(merges), fi.node.lineno, clause='d')
             continue
         v = merges[0].value
-        terms = or_terms(v)
-        vt = [t for t in terms if 'self.field_name' in canon(t)]
-        rest = [t for t in terms if t not in vt]
-        ok = True
-        if len(vt) != 1 or canon(vt[0]) != t1_want:
-            ok = ctx.violation(rule, fi, '%s: value term %s' % (label, [canon(t) for t in vt]), 'the member\'s value must enter as (value << shift) & mask: without the mask a large or negative value overwrites the neighbours', merges[0].lineno, clause='d')
-        for t in rest:
-            facs = and_factors(t)
-            ft = sorted(canon(f) for f in facs)
-            if ft != sorted([C(GETI), '~self.mask']):
-                ok = ctx.violation(rule, fi, '%s: kept term %s' % (label, canon(t)), 'the rest of the shared slot must be kept as I & ~mask', merges[0].lineno, clause='d')
-        if len(rest) != 1:
-            ok = ctx.violation(rule, fi, '%s: %s' % (label, canon(v)), 'the merge must be (value term) | (I & ~mask): %d kept terms' % len(rest), merges[0].lineno, clause='d')
-        if ok:
-            ctx.holds(rule, fi, '%s: shared := ((value << shift) & mask) | (I & ~mask)' % label, 'confinement normal form', merges[0].lineno, clause='d')
+        try:
+            if bits is None:
+                raise Undecided('the shifts and masks of Bits._compile were not identified')
+            got = bits_eval(bits).ev(v)
+            if isinstance(got, bp.Bits) and got.key() == bp.merged().key():
+                ctx.holds(rule, fi, '%s: shared := ((value << shift) & mask) | (I & ~mask)' % label, 'bit provenance %s: confinement' % got.text(), merges[0].lineno, clause='d')
+            elif isinstance(got, bp.Bits) and got.truncated:
+                ctx.violation(rule, fi, '%s: %s' % (label, canon(v)), 'the rest of the shared slot must be kept as I & ~mask, at every width of the shared Int; this keeps only bits below a fixed position: %s' % got.text(), merges[0].lineno, clause='d')
+            elif isinstance(got, bp.Bits):
+                vs = [x for x in got.slices if x[0] == 'V']
+                want_v = [x for x in bp.merged().slices if x[0] == 'V']
+                if vs != want_v:
+                    why = 'the member\'s value must enter as (value << shift) & mask: without the mask a large or negative value overwrites the neighbours'
+                else:
+                    why = 'the rest of the shared slot must be kept as I & ~mask'
+                ctx.violation(rule, fi, '%s: %s' % (label, canon(v)), '%s; this is %s' % (why, got.text()), merges[0].lineno, clause='d')
+            else:
+                ctx.violation(rule, fi, '%s: %s' % (label, canon(v)), 'the merge must be (value term) | (I & ~mask)', merges[0].lineno, clause='d')
+        except Undecided as ex:
+            ctx.undecided(rule, fi, '%s: %s' % (label, canon(v)), str(ex), merges[0].lineno, clause='d')
         others = [e for e in st_ if e not in merges]
         for e in others:
             ctx.violation(rule, fi, '%s: %s' % (label, e.text()), 'pack writes another packet attribute', e.lineno, clause='d')
@@ -423,9 +504,9 @@ def check(ctx):
         if m not in ci.methods:
             raise Undecided('anchor Bits.%s not found' % m)
     ctx.unit('functions', 4)
-    check_compile(ctx, ci)
-    check_unpack(ctx, ci)
-    check_pack(ctx, ci)
+    bits = check_compile(ctx, ci)
+    check_unpack(ctx, ci, bits)
+    check_pack(ctx, ci, bits)
     check_init(ctx, ci)
     # the shared Int encodes / decodes exactly (no wrapping, strict): C05 rule R1 on Int
     from .c05 import check_codecs
